@@ -423,4 +423,15 @@ func TestC19Chan(t *testing.T) {
 			idx++
 		}
 	}
+	// concurrent writers on one channel transport (free-running)
+	for _, k := range []int{2, 8} {
+		if want(idx) {
+			em.Marker("begin", idx)
+			ch := make(chan *goat.Rpc, 1)
+			rw := goat.NewGoatOverChannel(ch, ch)
+			emitConc(em, idx, "chan", k, 400, concWriters(k, 400, rw.Write, rw.Read))
+			em.Marker("end", idx)
+		}
+		idx++
+	}
 }
